@@ -19,8 +19,10 @@ import os
 from common import InfraError, lean_batch, LEAN
 
 
-QUOTA_QUICK = {"write_config": 24, "bind_config": 16, "call_eqv:derived": 28}
-QUOTA_THOROUGH = {"write_config": 110, "bind_config": 60, "call_eqv:derived": 130}
+QUOTA_QUICK = {"write_config": 24, "bind_config": 16, "call_eqv:derived:single": 26,
+               "call_eqv:derived:multi": 6, "call_eqv:derived:neutral": 3}
+QUOTA_THOROUGH = {"write_config": 110, "bind_config": 60, "call_eqv:derived:single": 120,
+                  "call_eqv:derived:multi": 40, "call_eqv:derived:neutral": 4}
 
 
 def _refine_key(x):
